@@ -113,6 +113,10 @@ pub struct Run {
     pub state_event_pairs: BTreeSet<String>,
     pub chain_epoch: u64,
     pub key_counter: u64,
+    /// Some: signers behave like real ones - a (signer, signed entity) whose signature was
+    /// ACKNOWLEDGED (registered or buffered) is never sent again (C15's workload: a restarted
+    /// aggregator has to go on with what it persisted). None: every Sign event sends.
+    pub signed_once: Option<BTreeSet<(usize, String)>>,
 }
 
 fn disc_name(d: SignedEntityTypeDiscriminants) -> String {
@@ -161,6 +165,7 @@ impl Run {
             state_event_pairs: BTreeSet::new(),
             chain_epoch: start_epoch,
             key_counter: 0,
+            signed_once: None,
         })
     }
 
@@ -186,6 +191,7 @@ impl Run {
             state_event_pairs: BTreeSet::new(),
             chain_epoch,
             key_counter: 0,
+            signed_once: None,
         })
     }
 
@@ -542,6 +548,11 @@ impl Run {
         for &i in who {
             let f = &fixtures[i];
             let party = f.signer_with_stake.party_id.clone();
+            let once_key = (i, format!("{set:?}"));
+            if self.signed_once.as_ref().is_some_and(|s| s.contains(&once_key)) {
+                mon.count("sign:not_sent_again_(already_acknowledged)");
+                continue;
+            }
             let in_set = self.model.signing_set.get(&epoch).map(|s| s.contains(&i)).unwrap_or(self.model.default_all);
             // a signer outside the epoch's set signs with the whole-fixture registration it knows
             let sig: Option<SingleSignature> = if in_set {
@@ -580,6 +591,11 @@ impl Run {
                         format!("err:{}", class.unwrap_or_else(|| t.chars().take(80).collect()))
                     }
                 };
+                if (reply.starts_with("Registered") || reply.starts_with("Buffered")) && mode == SignMode::Valid {
+                    if let Some(s) = self.signed_once.as_mut() {
+                        s.insert(once_key.clone());
+                    }
+                }
                 mon.count(&format!("signature_reply:{}:{}", if well_formed { "well_formed" } else { "bad" }, reply.chars().take(40).collect::<String>()));
                 self.deliveries.push(Delivery {
                     step: self.step,
